@@ -529,15 +529,21 @@ func vC42Marker(u string) string {
 }
 
 // static source / hooks history on an on-demand source path
-func vC42RunSource(dir string, name string, key0 string, mkTmpl func(port int) string, steps []vC42Step, fam string) (*vC42Out, error) {
-	const timeout = 1200 * time.Millisecond
+//   - stayRunning = false: sourceOnDemandStartTimeout 600 ms; reloads are only issued while the source is stopped;
+//   - stayRunning = true: the timeout is 60 s, so that the source runs until the path manager is closed and no timer can
+//     interfere with a reload that is issued while it runs.
+func vC42RunSource(dir string, name string, key0 string, mkTmpl func(port int) string, steps []vC42Step, fam string, stayRunning bool) (*vC42Out, error) {
+	timeoutText := "600ms"
+	if stayRunning {
+		timeoutText = "60s"
+	}
 	l, err := vC42Listen()
 	if err != nil {
 		return nil, err
 	}
 	defer l.close()
 	tmpl := mkTmpl(l.port())
-	mk := func(key string) vC42Spec { return vC42Spec{key: key, source: tmpl, timeout: "1200ms"} }
+	mk := func(key string) vC42Spec { return vC42Spec{key: key, source: tmpl, timeout: timeoutText} }
 	confs, err := vC42Load(dir, mk(key0))
 	if err != nil {
 		return nil, err
@@ -545,7 +551,14 @@ func vC42RunSource(dir string, name string, key0 string, mkTmpl func(port int) s
 	h := &vC42Hist{dir: dir, l: l, name: name, cur: confs}
 	h.pm = &pathManager{authManager: test.NilAuthManager, pathConfs: confs, parent: test.NilLogger}
 	h.pm.initialize()
-	defer h.pm.close()
+	pmClosed := false
+	closePM := func() {
+		if !pmClosed {
+			pmClosed = true
+			h.pm.close()
+		}
+	}
+	defer closePM()
 
 	in := &vC42Intern{}
 	var descSteps []any
@@ -594,7 +607,8 @@ func vC42RunSource(dir string, name string, key0 string, mkTmpl func(port int) s
 			describe(st.query)
 			query = st.query
 			urls, ok := l.takeWhen(func(u []string) bool { return len(u) >= 1 }, 5*time.Second)
-			if !ok && time.Since(descAt) > timeout {
+			if !ok && !stayRunning {
+				// whether a started source connects at all before it is stopped again is not C42's subject
 				discarded = "the source did not connect before the on-demand timeout"
 			}
 			running = true
@@ -612,7 +626,7 @@ func vC42RunSource(dir string, name string, key0 string, mkTmpl func(port int) s
 			descSteps = append(descSteps, map[string]any{"op": "a reader asks for the path with query " + strconv.Quote(st.query) + ": source started on demand",
 				"groups": fmt.Sprintf("%q", curMs), "observed": d})
 		case "wait-stop":
-			if !running {
+			if !running || stayRunning {
 				continue
 			}
 			<-descDone
@@ -623,8 +637,8 @@ func vC42RunSource(dir string, name string, key0 string, mkTmpl func(port int) s
 			stepTerms = append(stepTerms, cqPair("OSrcStop", ob))
 			descSteps = append(descSteps, map[string]any{"op": "nobody is served within sourceOnDemandStartTimeout: source stopped", "observed": d})
 		default:
-			if h.pa == nil {
-				continue // the path does not exist yet: nothing is reloaded
+			if h.pa == nil || (running && !stayRunning) {
+				continue // the path does not exist yet / the on-demand timer is running
 			}
 			nc, err := vC42Load(dir, mk(st.key))
 			if err != nil {
@@ -634,9 +648,6 @@ func vC42RunSource(dir string, name string, key0 string, mkTmpl func(port int) s
 			h.pm.ReloadPathConfs(nc)
 			if err := h.settle(); err != nil {
 				return nil, fmt.Errorf("%w (step %q, %s -> %s)", err, st.what, curKey, st.key)
-			}
-			if running && time.Since(descAt) > timeout-400*time.Millisecond {
-				discarded = "the reload was not applied early enough before the on-demand timeout"
 			}
 			_, ms, _ := conf.FindPathConf(nc, name)
 			moved := st.key != curKey
@@ -667,9 +678,11 @@ func vC42RunSource(dir string, name string, key0 string, mkTmpl func(port int) s
 			}
 		}
 	}
-	if running {
+	closePM()
+	if descDone != nil {
 		<-descDone
 	}
+	_ = descAt
 	if discarded != "" {
 		return &vC42Out{discarded: discarded}, nil
 	}
@@ -824,9 +837,9 @@ func TestVerifC42Core(t *testing.T) {
 
 	// source histories
 	srcTmpls := []string{"src/$G1/$G2?$MTX_QUERY", "src/$G2-$G1", "src/x_$G1?a=1&$MTX_QUERY", "src/$G3/$G1"}
-	addSource := func(name, key0, tm string, steps []vC42Step, fam string) {
+	addSource := func(name, key0, tm string, steps []vC42Step, fam string, stayRunning bool) {
 		jobs = append(jobs, job{run: func(dir string) (*vC42Out, error) {
-			return vC42RunSource(dir, name, key0, func(port int) string { return "rtsp://127.0.0.1:" + strconv.Itoa(port) + "/" + tm }, steps, fam)
+			return vC42RunSource(dir, name, key0, func(port int) string { return "rtsp://127.0.0.1:" + strconv.Itoa(port) + "/" + tm }, steps, fam, stayRunning)
 		}})
 	}
 	sre := func(name, from, to string) vC42Step {
@@ -834,10 +847,15 @@ func TestVerifC42Core(t *testing.T) {
 	}
 	// stopped source, more groups, started again (the defect fixed by /repo 794b1d3)
 	addSource("cam_front", "~^(cam)_front$", srcTmpls[0], []vC42Step{{kind: "describe", query: "a=b"}, {kind: "wait-stop"},
-		sre("cam_front", "~^(cam)_front$", "~^(cam)_(front)$"), {kind: "describe", query: "c=d"}, {kind: "wait-stop"}}, "directed")
+		sre("cam_front", "~^(cam)_front$", "~^(cam)_(front)$"), {kind: "describe", query: "c=d"}, {kind: "wait-stop"}}, "directed", false)
+	// ... fewer groups, then none
+	addSource("cam_front", "~^(cam)_(front)$", srcTmpls[0], []vC42Step{{kind: "describe", query: ""}, {kind: "wait-stop"},
+		sre("cam_front", "~^(cam)_(front)$", "~^(cam)_front$"), {kind: "describe", query: "t=$G2"}, {kind: "wait-stop"},
+		sre("cam_front", "~^(cam)_front$", "~^cam_front$"), {kind: "describe", query: "u=1"}, {kind: "wait-stop"}}, "directed", false)
 	// running source, groups change: the instance is reconnected
 	addSource("cam_front", "~^(cam)_(front)$", srcTmpls[1], []vC42Step{{kind: "describe", query: ""},
-		sre("cam_front", "~^(cam)_(front)$", "~^(.+?)_(.+)$"), sre("cam_front", "~^(.+?)_(.+)$", "~^(ca)m_(fr)ont$"), {kind: "wait-stop"}}, "directed")
+		sre("cam_front", "~^(cam)_(front)$", "~^(.+?)_(.+)$"), sre("cam_front", "~^(.+?)_(.+)$", "~^(ca)m_(fr)ont$"),
+		sre("cam_front", "~^(ca)m_(fr)ont$", "~^(ca)m_front$")}, "directed", true)
 	nSrc := 4 + vN()/150
 	for i := 0; i < nSrc; i++ {
 		name := vPick(r, names)
@@ -851,29 +869,28 @@ func TestVerifC42Core(t *testing.T) {
 		cur := vPick(r, rk).key
 		k0 := cur
 		var steps []vC42Step
-		running := false
+		stay := r.Chance(2, 5)
 		steps = append(steps, vC42Step{kind: "describe", query: vPick(r, []string{"", "a=b", "t=$G1", "x=1&y=2"})})
-		running = true
-		nre := 0
-		for k, nst := 0, 2+r.Intn(4); k < nst; k++ {
-			switch c := r.Intn(10); {
-			case c < 5 && !(running && nre >= 1):
+		if stay {
+			// reloads while the source runs
+			for k, nst := 0, 1+r.Intn(3); k < nst; k++ {
 				nk := vPick(r, rk).key
 				steps = append(steps, sre(name, cur, nk))
 				cur = nk
-				if running {
-					nre++
+			}
+		} else {
+			// reloads while the source is stopped, then the next start
+			steps = append(steps, vC42Step{kind: "wait-stop"})
+			for round, nr := 0, 1+r.Intn(2); round < nr; round++ {
+				for k, nst := 0, 1+r.Intn(2); k < nst; k++ {
+					nk := vPick(r, rk).key
+					steps = append(steps, sre(name, cur, nk))
+					cur = nk
 				}
-			case running:
-				steps = append(steps, vC42Step{kind: "wait-stop"})
-				running = false
-				nre = 0
-			default:
-				steps = append(steps, vC42Step{kind: "describe", query: vPick(r, []string{"", "q=7", "k=$G2"})})
-				running = true
+				steps = append(steps, vC42Step{kind: "describe", query: vPick(r, []string{"", "q=7", "k=$G2"})}, vC42Step{kind: "wait-stop"})
 			}
 		}
-		addSource(name, k0, vPick(r, srcTmpls), steps, "random")
+		addSource(name, k0, vPick(r, srcTmpls), steps, "random", stay)
 	}
 
 	// run the histories, a few at a time (each has its own listener, pathManager and directory)
